@@ -83,7 +83,9 @@ func genTimeout(r *core.Rand) string {
 	case 7: // malformed: unknown / missing unit
 		return digits(1+r.Intn(7)) + r.PickS("s", "h", "x", "ms", "", "µ", "N", "U")
 	case 8: // malformed: embedded space or non-digit
-		return r.PickS("1 2S", "1a2S", "1.5S", "0x10S", "1_0m", "1e3S", "12 m", "٣S")
+		return r.PickS("1 2S", "1a2S", "1.5S", "0x10S", "1_0m", "1e3S", "12 m", "٣S",
+			// ... or more than one unit letter, a unit in front, digits after the unit
+			"5mS", "10SS", "1nH", "7uM", "3HH", "S5", "5S5", "1H2M", "5 S", " 5S", "5S ")
 	case 9: // signed: not judged
 		return r.PickS("+", "-") + digits(1+r.Intn(6)) + u
 	default:
